@@ -13,6 +13,7 @@ PtrCols == {"sp", "pa", "e1", "e2"}
 Required == {"alter", "bruttolohn_m", "kind", "hh_id"}        \* representatives of required input columns
 Lossy == {"int_frac", "int_frac_small", "bool_two", "bool_frac", "object"}
 Benign == {"int_as_float", "bool_as_int01", "bool_as_float01", "float_as_int"}
+Neutral == {"float_as_float32"}     \* the same kind stored narrower (values exactly representable): no conversion, no warning required, same results
 Pids(t) == {t.rows[i].pid : i \in 1..Len(t.rows)}
 Valid(t) ==
   /\ ~t.nopid
